@@ -221,6 +221,7 @@ class Run:
                 continue
             h = self.repo.body_hash(self.repo.qual[q0])
             self.trusted_pins[q0] = h
+            self.notes.setdefault("trusted_repo_functions", {})[q0] = {"body_sha": h, "pinned": pins.get(q0), "why": str(c.trusted)[:200]}
             if os.environ.get("VERIF_PIN_TRUSTED"):
                 pins[q0] = h            # maintenance mode (tools/pin_trusted.sh, after auditing a changed body): never set by a registered command
                 continue
@@ -524,15 +525,16 @@ def match_known(pid, o, known):
 # bounded companions run by the thorough tier with further seeds: property -> [(script, [argument lists])]
 THOROUGH_COMPANIONS = {
     "C01": [("inert_diff.py", [["1"], ["2"], ["3"]])],
-    "C02": [("total_diff.py", [[]])],
     "C03": [("event_diff.py", [[]])],
     "C04": [("floor_diff.py", [["1"]]), ("total_diff.py", [[]])],
     "C05": [("value_diff.py", [["1"], ["2"], ["3"]])],
     "C06": [("parse_diff.py", [["1"], ["2"], ["3"]])],
+    "C02": [("total_diff.py", [[]]), ("load_diff.py", [["1"]]), ("hook_diff.py", [["1"], ["2"]])],
     "C07": [("nested_diff.py", [["1"]])],
     "C08": [("inject_diff.py", [["1"]])],
     "C09": [("shape_diff.py", [[]])],
     "C11": [("allow_diff.py", [["1"], ["2"], ["3"], ["4"]])],
+    "C12": [("hook_diff.py", [["1"], ["2"], ["3"]])],
     "C13": [("determinism_diff.py", [["--two-process"]])],
     "C14": [("edits_diff.py", [["1", "400"], ["2", "400"], ["3", "400"]])],
     "C15": [("const_diff.py", [["1"], ["2"], ["3"]])],
